@@ -182,7 +182,7 @@ Lemma psums_last acc l : last (psums acc l) 0 = acc + sumN l.
 Proof.
   revert acc. induction l as [|x l IH]; intros acc; [cbn; lia|].
   cbn [psums]. rewrite last_cons, (last_nonempty_default _ acc 0) by apply psums_nonnil.
-  rewrite IH. cbn. lia.
+  rewrite IH. unfold sumN. cbn [fold_right]. lia.
 Qed.
 
 Lemma psums_bound acc l : Forall (fun x => x <= acc + sumN l) (psums acc l).
@@ -268,8 +268,13 @@ Proof. unfold num_elems, lenN. destruct (255 <? n); rewrite to_le_length; lia. Q
 Lemma large_flag (b : bool) : ((if b then 1 else 0) mod 2 =? 1) = b.
 Proof. destruct b; reflexivity. Qed.
 
+Lemma lenN_psums acc l : lenN (psums acc l) = 1 + lenN l.
+Proof. unfold lenN. rewrite psums_length. lia. Qed.
+Lemma lenN_map {A B} (f : A -> B) l : lenN (map f l) = lenN l.
+Proof. unfold lenN. now rewrite map_length. Qed.
+
 (** * arrays *)
-Lemma array_header encs :
+Lemma array_header (encs : list bytes) :
   exists body, build_array encs =
     (3 + 4 * (offset_size_code (lenN (concat encs)) + 4 * (if 255 <? lenN encs then 1 else 0))) :: body /\
     body = num_elems (lenN encs)
@@ -277,7 +282,7 @@ Lemma array_header encs :
              ++ concat encs.
 Proof. eexists. split; [|reflexivity]. unfold build_array. f_equal. lia. Qed.
 
-Lemma dec_build_array rec encs xs rest :
+Lemma dec_build_array (rec : bytes -> option value) (encs : list bytes) xs (rest : bytes) :
   Forall2 (fun b x => forall rest, rec (b ++ rest) = Some x) encs xs ->
   lenN (build_array encs) < 2 ^ 32 ->
   exists h body, build_array encs = h :: body /\ h mod 4 = 3 /\
@@ -285,29 +290,481 @@ Lemma dec_build_array rec encs xs rest :
 Proof.
   intros HF Hl. destruct (array_header encs) as (body & E & Eb).
   rewrite E in Hl |- *. eexists _, body. split; [reflexivity|].
-  set (osc := offset_size_code (lenN (concat encs))) in *.
-  set (lg := 255 <? lenN encs) in *.
-  assert (Hosc : osc < 4) by apply offset_size_code_lt4.
+  remember (offset_size_code (lenN (concat encs))) as osc eqn:Eosc.
+  assert (Hosc : osc < 4) by (subst osc; apply offset_size_code_lt4).
   split; [apply hdr_mod; lia|]. rewrite hdr_div by lia.
   assert (Hlen : lenN body = lenN (num_elems (lenN encs)) + N.of_nat (osz_of osc) * (1 + lenN encs) + lenN (concat encs)).
-  { rewrite Eb, !lenN_app, lenN_write_uints. unfold lenN at 3. rewrite psums_length, map_length. unfold lenN. lia. }
+  { rewrite Eb, !lenN_app, lenN_write_uints, lenN_psums, lenN_map. apply N.add_assoc. }
   rewrite lenN_cons in Hl.
   pose proof (num_elems_len (lenN encs)) as Hn1. pose proof (osz_ge1 osc) as Ho1.
   assert (Hn : lenN encs < 2 ^ 32) by nia.
   assert (Htot : lenN (concat encs) < 2 ^ 32) by lia.
   unfold dec_array.
   rewrite (hdr_mod osc) by exact Hosc. rewrite (hdr_div osc) by exact Hosc.
-  rewrite large_flag. fold lg.
-  rewrite Eb, <- !app_assoc. unfold lg. rewrite read_num_elems by exact Hn.
-  match goal with |- context [lenN ?r <? lenN encs] => destruct (N.ltb_spec (lenN r) (lenN encs)) as [Hc|Hc] end.
-  { exfalso. rewrite lenN_app, lenN_write_uints in Hc. unfold lenN at 2 in Hc.
-    rewrite psums_length, map_length in Hc. unfold lenN in *. nia. }
+  rewrite large_flag.
+  rewrite Eb, <- !app_assoc. rewrite read_num_elems by exact Hn.
+  match goal with |- context [if ?c then None else _] => assert (Hc : c = false) end.
+  { apply N.ltb_ge. rewrite lenN_app, lenN_write_uints, lenN_psums, lenN_map.
+    unfold bytes in *. nia. }
+  rewrite Hc.
   replace (S (N.to_nat (lenN encs))) with (length (psums 0 (map lenN encs)))
     by (rewrite psums_length, map_length, to_nat_lenN; reflexivity).
   rewrite read_uints_write.
   2:{ eapply Forall_impl; [|apply psums_bound]. cbn. intros a Ha. rewrite sum_lens in Ha.
-      apply offset_size_code_bound; [exact Htot|]. fold osc. lia. }
+      subst osc. apply offset_size_code_bound; [exact Htot|]. lia. }
   rewrite psums_last, sum_lens, N.add_0_l, takeN_app.
   pose proof (dec_elems_region rec encs xs HF []) as Hr. cbn [app] in Hr.
   change (lenN (@nil N)) with 0 in Hr. now rewrite Hr.
 Qed.
+
+(** * objects *)
+Lemma max_id_bound (es : list entry) : Forall (fun e => entry_id e <= max_id es) es.
+Proof.
+  induction es as [|e es IH]; [constructor|]. cbn [max_id fold_right]. fold (max_id es).
+  constructor; [unfold entry_id; lia|]. eapply Forall_impl; [|exact IH]. cbn. intros a Ha. lia.
+Qed.
+
+Lemma object_header (es : list entry) :
+  exists body, build_object es =
+    (2 + 4 * (offset_size_code (lenN (concat (map entry_enc es)))
+              + 4 * (offset_size_code (max_id es) + 4 * (if 255 <? lenN es then 1 else 0)))) :: body /\
+    body = num_elems (lenN es)
+             ++ write_uints (osz_of (offset_size_code (max_id es))) (map entry_id es)
+             ++ write_uints (osz_of (offset_size_code (lenN (concat (map entry_enc es)))))
+                            (psums 0 (map lenN (map entry_enc es)))
+             ++ concat (map entry_enc es).
+Proof. eexists. split; [|reflexivity]. unfold build_object. f_equal. fold entry_enc. lia. Qed.
+
+Lemma dec_build_object (rec : bytes -> option value) d (es : list entry) cfs (rest : bytes) :
+  Forall2 (field_ok rec d) cfs es -> NoDup (map fst cfs) ->
+  lenN (build_object es) < 2 ^ 32 -> max_id es < 2 ^ 32 ->
+  exists h body, build_object es = h :: body /\ h mod 4 = 2 /\
+    dec_object rec d (h / 4) (body ++ rest) = Some (VObject cfs).
+Proof.
+  intros HF ND Hl Hmax. destruct (object_header es) as (body & E & Eb).
+  rewrite E in Hl |- *. eexists _, body. split; [reflexivity|].
+  remember (offset_size_code (lenN (concat (map entry_enc es)))) as osc eqn:Eosc.
+  remember (offset_size_code (max_id es)) as fsc eqn:Efsc.
+  assert (Hosc : osc < 4) by (subst osc; apply offset_size_code_lt4).
+  assert (Hfsc : fsc < 4) by (subst fsc; apply offset_size_code_lt4).
+  split; [apply hdr_mod; lia|]. rewrite hdr_div by lia.
+  assert (Hlen : lenN body = lenN (num_elems (lenN es)) + N.of_nat (osz_of fsc) * lenN es
+                 + N.of_nat (osz_of osc) * (1 + lenN es) + lenN (concat (map entry_enc es))).
+  { rewrite Eb, !lenN_app, !lenN_write_uints, lenN_psums, !lenN_map. unfold bytes. lia. }
+  rewrite lenN_cons in Hl.
+  pose proof (num_elems_len (lenN es)) as Hn1. pose proof (osz_ge1 osc) as Ho1.
+  pose proof (osz_ge1 fsc) as Hf1.
+  assert (Hn : lenN es < 2 ^ 32) by (unfold bytes in *; nia).
+  assert (Htot : lenN (concat (map entry_enc es)) < 2 ^ 32) by (unfold bytes in *; lia).
+  unfold dec_object.
+  rewrite (hdr_mod osc) by exact Hosc. rewrite (hdr_div osc) by exact Hosc.
+  rewrite (hdr_mod fsc) by exact Hfsc.
+  change 16 with (4 * 4). rewrite <- N.div_div by discriminate.
+  rewrite (hdr_div osc) by exact Hosc. rewrite (hdr_div fsc) by exact Hfsc.
+  rewrite large_flag.
+  rewrite Eb, <- !app_assoc. rewrite read_num_elems by exact Hn.
+  match goal with |- context [if ?c then None else _] => assert (Hc : c = false) end.
+  { apply N.ltb_ge. rewrite lenN_app, lenN_write_uints, lenN_map. unfold bytes in *. nia. }
+  rewrite Hc.
+  replace (N.to_nat (lenN es)) with (length (map entry_id es))
+    by (rewrite map_length, to_nat_lenN; reflexivity).
+  rewrite read_uints_write.
+  2:{ rewrite Forall_map. eapply Forall_impl; [|apply max_id_bound]. cbn. intros a Ha.
+      subst fsc. apply offset_size_code_bound; [exact Hmax|exact Ha]. }
+  rewrite map_length.
+  replace (S (length es)) with (length (psums 0 (map lenN (map entry_enc es))))
+    by (rewrite psums_length, !map_length; reflexivity).
+  rewrite read_uints_write.
+  2:{ eapply Forall_impl; [|apply psums_bound]. cbn. intros a Ha. rewrite sum_lens in Ha.
+      subst osc. apply offset_size_code_bound; [exact Htot|]. lia. }
+  rewrite psums_last, sum_lens, N.add_0_l, takeN_app.
+  pose proof (dec_fields_region rec d cfs es HF []) as Hr. cbn [app] in Hr.
+  change (lenN (@nil N)) with 0 in Hr. rewrite Hr.
+  apply nodupb_NoDup in ND. now rewrite ND.
+Qed.
+
+(** * the dictionary as encoder state *)
+Definition ext (d d' : dict) : Prop := exists e, d' = d ++ e.
+
+Lemma ext_refl d : ext d d.
+Proof. exists []. now rewrite app_nil_r. Qed.
+Lemma ext_trans a b c : ext a b -> ext b c -> ext a c.
+Proof. intros [e ->] [e' ->]. exists (e ++ e'). now rewrite app_assoc. Qed.
+Lemma ext_len d d' : ext d d' -> lenN d <= lenN d'.
+Proof. intros [e ->]. rewrite lenN_app. lia. Qed.
+Lemma ext_nth d d' i (x : bytes) : ext d d' -> nth_error d i = Some x -> nth_error d' i = Some x.
+Proof.
+  intros [e ->] H. rewrite nth_error_app1; [exact H|]. apply nth_error_Some. congruence.
+Qed.
+
+Lemma index_of_Some k d : forall i, index_of k d = Some i -> nth_error d i = Some k.
+Proof.
+  induction d as [|x d IH]; intros i H; cbn in H; [discriminate|].
+  destruct (beq k x) eqn:E.
+  - inversion H; subst. apply beq_eq in E. now subst.
+  - destruct (index_of k d) as [j|]; [|discriminate]. inversion H; subst. cbn. now apply IH.
+Qed.
+
+Lemma index_of_None k d : index_of k d = None -> ~ In k d.
+Proof.
+  induction d as [|x d IH]; intros H; cbn in H; [tauto|].
+  destruct (beq k x) eqn:E; [discriminate|].
+  destruct (index_of k d); [discriminate|].
+  apply beq_false_iff in E. intros [->|Hin]; [congruence|]. now apply IH.
+Qed.
+
+Lemma dict_add_ok d k d' i : NoDup d -> dict_add d k = (d', i) ->
+  ext d d' /\ NoDup d' /\ nth_error d' i = Some k.
+Proof.
+  intros ND H. unfold dict_add in H. destruct (index_of k d) as [j|] eqn:E; inversion H; subst.
+  - split; [apply ext_refl|]. split; [exact ND|]. now apply index_of_Some.
+  - split; [now exists [k]|]. split.
+    + eapply Permutation_NoDup; [apply Permutation_cons_append|].
+      constructor; [now apply index_of_None|exact ND].
+    + rewrite nth_error_app2 by lia. now rewrite Nat.sub_diag.
+Qed.
+
+(* the dictionary only grows and stays duplicate-free *)
+Definition dict_good (v : value) : Prop :=
+  forall d d' b, NoDup d -> enc_st d v = (d', b) -> ext d d' /\ NoDup d'.
+
+Lemma enc_elems_dict l : Forall dict_good l ->
+  forall d d' encs, NoDup d -> enc_elems enc_st d l = (d', encs) -> ext d d' /\ NoDup d'.
+Proof.
+  induction 1 as [|x l Hx Hl IH]; intros d d' encs ND E; cbn [enc_elems] in E.
+  - inversion E; subst. split; [apply ext_refl|exact ND].
+  - destruct (enc_st d x) as [d1 b] eqn:E1. destruct (enc_elems enc_st d1 l) as [d2 bs] eqn:E2.
+    inversion E; subst. destruct (Hx _ _ _ ND E1) as [X1 N1].
+    destruct (IH _ _ _ N1 E2) as [X2 N2]. split; [eapply ext_trans; eauto|exact N2].
+Qed.
+
+Lemma enc_fields_dict fs : Forall (fun kv => dict_good (snd kv)) fs ->
+  forall d d' es, NoDup d -> enc_fields enc_st d fs = (d', es) -> ext d d' /\ NoDup d'.
+Proof.
+  induction 1 as [|[k x] fs Hx Hl IH]; intros d d' es ND E; cbn [enc_fields] in E.
+  - inversion E; subst. split; [apply ext_refl|exact ND].
+  - destruct (dict_add d k) as [d0 id] eqn:E0. destruct (enc_st d0 x) as [d1 b] eqn:E1.
+    destruct (enc_fields enc_st d1 fs) as [d2 r] eqn:E2. inversion E; subst.
+    destruct (dict_add_ok _ _ _ _ ND E0) as (X0 & N0 & _).
+    destruct (Hx _ _ _ N0 E1) as [X1 N1]. destruct (IH _ _ _ N1 E2) as [X2 N2].
+    split; [eapply ext_trans; [exact X0|eapply ext_trans; eauto]|exact N2].
+Qed.
+
+Lemma enc_st_array d l : enc_st d (VArray l) =
+  let '(d', encs) := enc_elems enc_st d l in (d', build_array encs).
+Proof. reflexivity. Qed.
+Lemma enc_st_object d fs : enc_st d (VObject fs) =
+  let '(d', es) := enc_fields enc_st d fs in (d', build_object (isort es)).
+Proof. reflexivity. Qed.
+
+Lemma enc_st_dict v : dict_good v.
+Proof.
+  induction v using value_ind'; unfold dict_good; intros d d' bb ND E;
+    try (cbn in E; inversion E; subst; split; [apply ext_refl|exact ND]).
+  - rewrite enc_st_array in E. destruct (enc_elems enc_st d l) as [d1 encs] eqn:E1.
+    inversion E; subst. eapply enc_elems_dict; eauto.
+  - rewrite enc_st_object in E. destruct (enc_fields enc_st d fs) as [d1 es] eqn:E1.
+    inversion E; subst. eapply enc_fields_dict; eauto.
+Qed.
+
+Definition dec_ok (d' : dict) (b : bytes) (cv : value) : Prop :=
+  forall d'' fuel (rest : bytes), ext d' d'' -> (length b <= fuel)%nat ->
+    dec fuel d'' (b ++ rest) = Some cv.
+
+Lemma dec_ok_ext d1 d2 b cv : ext d1 d2 -> dec_ok d1 b cv -> dec_ok d2 b cv.
+Proof. intros He H d'' fuel rest He' Hf. apply H; [eapply ext_trans; eauto|exact Hf]. Qed.
+
+Definition enc_good (v : value) : Prop :=
+  wf v -> forall d d' b, NoDup d -> enc_st d v = (d', b) -> lenN b < 2 ^ 32 -> lenN d' < 2 ^ 32 ->
+  ext d d' /\ NoDup d' /\ (1 <= length b)%nat /\ dec_ok d' b (canon v).
+
+Lemma lenN_le_concat (b : bytes) (l : list bytes) : In b l -> lenN b <= lenN (concat l).
+Proof. intros H. apply in_concat_le in H. unfold lenN. lia. Qed.
+
+Lemma enc_elems_ok l : Forall enc_good l -> Forall wf l ->
+  forall d d' encs, NoDup d -> enc_elems enc_st d l = (d', encs) ->
+  lenN (concat encs) < 2 ^ 32 -> lenN d' < 2 ^ 32 ->
+  Forall2 (fun b x => (1 <= length b)%nat /\ dec_ok d' b x) encs (map canon l).
+Proof.
+  induction 1 as [|x l Hx Hl IH]; intros Hw d d' encs ND E Hlen Hd; cbn [enc_elems] in E.
+  - inversion E; subst. constructor.
+  - inversion Hw as [|? ? Hwx Hwl]; subst.
+    destruct (enc_st d x) as [d1 b] eqn:E1. destruct (enc_elems enc_st d1 l) as [d2 bs] eqn:E2.
+    inversion E; subst. cbn [concat] in Hlen. rewrite lenN_app in Hlen.
+    destruct (enc_st_dict x _ _ _ ND E1) as [X1 N1].
+    assert (DG : Forall dict_good l) by (apply Forall_forall; intros; apply enc_st_dict).
+    destruct (enc_elems_dict l DG _ _ _ N1 E2) as [X2 _].
+    pose proof (ext_len _ _ X2) as L2.
+    destruct (Hx Hwx _ _ _ ND E1) as (_ & _ & Hb1 & Hok); [lia|lia|].
+    cbn [map]. constructor.
+    + split; [exact Hb1|]. eapply dec_ok_ext; eauto.
+    + eapply IH; eauto. lia.
+Qed.
+
+Definition cmap (fs : list (bytes * value)) : list (bytes * value) :=
+  map (fun kv => let '(k, x) := kv in (k, canon x)) fs.
+
+Lemma canon_object fs : canon (VObject fs) = VObject (isort (cmap fs)).
+Proof. reflexivity. Qed.
+Lemma canon_array l : canon (VArray l) = VArray (map canon l).
+Proof. reflexivity. Qed.
+
+Lemma cmap_keys fs : map fst (cmap fs) = map fst fs.
+Proof. unfold cmap. rewrite map_map. apply map_ext. now intros [k x]. Qed.
+
+(* what is known of an encoded field relative to the final dictionary *)
+Definition entry_ok (d' : dict) (cf : bytes * value) (e : entry) : Prop :=
+  fst cf = fst e /\ nth_error d' (fst (snd e)) = Some (fst e) /\
+  (1 <= length (entry_enc e))%nat /\ dec_ok d' (entry_enc e) (snd cf).
+
+Lemma enc_fields_ok fs : Forall (fun kv => enc_good (snd kv)) fs ->
+  Forall (fun kv => wf_bytes (fst kv) /\ wf (snd kv)) fs ->
+  forall d d' es, NoDup d -> enc_fields enc_st d fs = (d', es) ->
+  lenN (concat (map entry_enc es)) < 2 ^ 32 -> lenN d' < 2 ^ 32 ->
+  Forall2 (entry_ok d') (cmap fs) es.
+Proof.
+  induction 1 as [|[k x] fs Hx Hl IH]; intros Hw d d' es ND E Hlen Hd; cbn [enc_fields] in E.
+  - inversion E; subst. constructor.
+  - inversion Hw as [|? ? [Hwk Hwx] Hwl]; subst. cbn [fst snd] in *.
+    destruct (dict_add d k) as [d0 id] eqn:E0. destruct (enc_st d0 x) as [d1 b] eqn:E1.
+    destruct (enc_fields enc_st d1 fs) as [d2 r] eqn:E2. inversion E; subst.
+    cbn [map concat entry_enc snd] in Hlen. rewrite lenN_app in Hlen. fold entry_enc in Hlen.
+    destruct (dict_add_ok _ _ _ _ ND E0) as (X0 & N0 & Hid).
+    destruct (enc_st_dict x _ _ _ N0 E1) as [X1 N1].
+    assert (DG : Forall (fun kv : bytes * value => dict_good (snd kv)) fs)
+      by (apply Forall_forall; intros; apply enc_st_dict).
+    destruct (enc_fields_dict fs DG _ _ _ N1 E2) as [X2 _].
+    pose proof (ext_len _ _ X2) as L2.
+    destruct (Hx Hwx _ _ _ N0 E1) as (_ & _ & Hb1 & Hok); [lia|lia|].
+    cbn [cmap map]. constructor.
+    + repeat split; cbn [fst snd entry_enc].
+      * apply (ext_nth d0 d'); [eapply ext_trans; [exact X1|exact X2]|exact Hid].
+      * exact Hb1.
+      * eapply dec_ok_ext; eauto.
+    + eapply IH; eauto. lia.
+Qed.
+
+Lemma build_array_len (encs : list bytes) : lenN (concat encs) < lenN (build_array encs).
+Proof.
+  destruct (array_header encs) as (body & E & Eb). rewrite E, lenN_cons, Eb, !lenN_app. lia.
+Qed.
+
+Lemma build_object_len (es : list entry) :
+  lenN (concat (map entry_enc es)) < lenN (build_object es).
+Proof.
+  destruct (object_header es) as (body & E & Eb). rewrite E, lenN_cons, Eb, !lenN_app. lia.
+Qed.
+
+Lemma perm_concat_len {A} (l l' : list (list A)) : Permutation l l' -> lenN (concat l) = lenN (concat l').
+Proof.
+  induction 1; cbn; rewrite ?lenN_app; try lia.
+Qed.
+
+Lemma Forall2_impl_in {A B} (P Q : A -> B -> Prop) l1 l2 :
+  (forall a b, In a l1 -> In b l2 -> P a b -> Q a b) -> Forall2 P l1 l2 -> Forall2 Q l1 l2.
+Proof.
+  intros H F. induction F as [|a b l1 l2 Hab F IH]; constructor.
+  - apply H; [now left|now left|exact Hab].
+  - apply IH. intros a' b' Ha Hb. apply H; now right.
+Qed.
+
+Lemma Forall2_in_r {A B} (P : A -> B -> Prop) l1 l2 b :
+  Forall2 P l1 l2 -> In b l2 -> exists a, In a l1 /\ P a b.
+Proof.
+  induction 1 as [|a b' l1 l2 Hab F IH]; intros Hin; [contradiction|].
+  destruct Hin as [->|Hin]; [exists a; split; [now left|exact Hab]|].
+  destruct (IH Hin) as (a' & Ha & Hp). exists a'. split; [now right|exact Hp].
+Qed.
+
+Lemma max_id_lt (es : list entry) M : 0 < M -> Forall (fun e => entry_id e < M) es -> max_id es < M.
+Proof.
+  intros HM. induction 1 as [|e es He H IH]; cbn [max_id fold_right]; [exact HM|].
+  fold (max_id es). unfold entry_id in He. lia.
+Qed.
+
+(** * the round trip, dictionary threaded *)
+Lemma enc_good_prim v : is_prim v -> enc_good v.
+Proof.
+  intros Hp Hw d d' bb ND E Hl Hd.
+  assert (E' : enc_st d v = (d, enc_prim v)) by (destruct v; try contradiction; reflexivity).
+  rewrite E' in E. inversion E; subst.
+  split; [apply ext_refl|]. split; [exact ND|]. split; [apply enc_prim_nonempty|].
+  intros d'' fuel rest _ Hf. pose proof (enc_prim_nonempty v) as Hne.
+  destruct fuel as [|f]; [lia|].
+  replace (canon v) with v by (destruct v; try contradiction; reflexivity). now apply dec_enc_prim.
+Qed.
+
+Lemma match3 {A} (a b c e : A) : match 3 with 0 => a | 1 => b | 2 => c | _ => e end = e.
+Proof. reflexivity. Qed.
+Lemma match2 {A} (a b c e : A) : match 2 with 0 => a | 1 => b | 2 => c | _ => e end = c.
+Proof. reflexivity. Qed.
+
+Lemma enc_st_good v : enc_good v.
+Proof.
+  induction v using value_ind'; try (apply enc_good_prim; exact I).
+  - (* array *)
+    intros Hw d d' bb ND E Hl Hd. rewrite enc_st_array in E.
+    destruct (enc_elems enc_st d l) as [d1 encs] eqn:E1. inversion E; subst.
+    apply wf_array in Hw.
+    assert (DG : Forall dict_good l) by (apply Forall_forall; intros; apply enc_st_dict).
+    destruct (enc_elems_dict l DG _ _ _ ND E1) as [X1 N1].
+    pose proof (build_array_len encs) as Hbl.
+    assert (HF : Forall2 (fun b x => (1 <= length b)%nat /\ dec_ok d' b x) encs (map canon l))
+      by (apply (enc_elems_ok l H Hw d d' encs ND E1); [unfold bytes in *; lia|exact Hd]).
+    split; [exact X1|]. split; [exact N1|].
+    destruct (array_header encs) as (body0 & E0 & _).
+    split; [rewrite E0; cbn; lia|].
+    intros d'' fuel rest Hext Hf. destruct fuel as [|f]; [rewrite E0 in Hf; cbn in Hf; lia|].
+    destruct (dec_build_array (dec f d'') encs (map canon l) rest) as (h & body & Eh & Hm & Hdec).
+    + eapply Forall2_impl_in; [|exact HF]. intros b x Hb _ [_ Hok] r.
+      apply Hok; [exact Hext|]. apply lenN_le_concat in Hb. unfold lenN in *. lia.
+    + exact Hl.
+    + rewrite Eh. cbn [app]. rewrite dec_S, Hm.
+      change (dec_array (dec f d'') (h / 4) (body ++ rest) = Some (canon (VArray l))).
+      rewrite canon_array. exact Hdec.
+  - (* object *)
+    intros Hw d d' bb ND E Hl Hd. rewrite enc_st_object in E.
+    destruct (enc_fields enc_st d fs) as [d1 es] eqn:E1. inversion E; subst.
+    apply wf_object in Hw as [Hnd Hw].
+    assert (DG : Forall (fun kv : bytes * value => dict_good (snd kv)) fs)
+      by (apply Forall_forall; intros; apply enc_st_dict).
+    destruct (enc_fields_dict fs DG _ _ _ ND E1) as [X1 N1].
+    pose proof (build_object_len (isort es)) as Hbl.
+    assert (Hpl : lenN (concat (map entry_enc (isort es))) = lenN (concat (map entry_enc es)))
+      by (apply perm_concat_len, Permutation_map, isort_perm).
+    assert (HF : Forall2 (entry_ok d') (cmap fs) es)
+      by (apply (enc_fields_ok fs H Hw d d' es ND E1); [unfold bytes in *; lia|exact Hd]).
+    assert (HS : Forall2 (entry_ok d') (isort (cmap fs)) (isort es)).
+    { apply isort_Forall2; [|exact HF]. intros a b0 (Hk & _). exact Hk. }
+    split; [exact X1|]. split; [exact N1|].
+    destruct (object_header (isort es)) as (body0 & E0 & _).
+    split; [rewrite E0; cbn; lia|].
+    intros d'' fuel rest Hext Hf. destruct fuel as [|f]; [rewrite E0 in Hf; cbn in Hf; lia|].
+    destruct (dec_build_object (dec f d'') d'' (isort es) (isort (cmap fs)) rest) as (h & body & Eh & Hm & Hdec).
+    + eapply Forall2_impl_in; [|exact HS]. intros cf e _ He (Hk & Hid & _ & Hok).
+      split; [exact Hk|]. split; [eapply ext_nth; eauto|]. intros r.
+      apply Hok; [exact Hext|].
+      assert (Hin : In (entry_enc e) (map entry_enc (isort es))) by now apply in_map.
+      apply lenN_le_concat in Hin. unfold lenN in *. lia.
+    + apply isort_keys_NoDup. now rewrite cmap_keys.
+    + exact Hl.
+    + apply max_id_lt; [lia|]. apply Forall_forall. intros e He.
+      destruct (Forall2_in_r _ _ _ _ HS He) as (cf & _ & (_ & Hid & _)).
+      assert (Hlt : (fst (snd e) < length d')%nat) by (apply nth_error_Some; congruence).
+      unfold entry_id, lenN in *. lia.
+    + rewrite Eh. cbn [app]. rewrite dec_S, Hm.
+      change (dec_object (dec f d'') d'' (h / 4) (body ++ rest) = Some (canon (VObject fs))).
+      rewrite canon_object. exact Hdec.
+Qed.
+
+(** * metadata *)
+Lemma psums_head acc l : exists t, psums acc l = acc :: t.
+Proof. destruct l; eexists; reflexivity. Qed.
+
+Lemma slice_mid (p x r : bytes) : slice (p ++ x ++ r) (lenN p, lenN p + lenN x) = Some x.
+Proof.
+  unfold slice. rewrite !lenN_app.
+  destruct (N.ltb_spec (lenN p + lenN x) (lenN p)); [lia|].
+  destruct (N.ltb_spec (lenN p + (lenN x + lenN r)) (lenN p + lenN x)); [lia|]. cbn [orb].
+  replace (lenN p + lenN x - lenN p) with (lenN x) by lia.
+  rewrite !to_nat_lenN, skipn_app_exact, firstn_app_exact. reflexivity.
+Qed.
+
+Lemma slices_ok (d : dict) : forall p : bytes,
+  map_opt (slice (p ++ concat d))
+    (combine (psums (lenN p) (map lenN d)) (tl (psums (lenN p) (map lenN d)))) = Some d.
+Proof.
+  induction d as [|x d IH]; intros p; [reflexivity|].
+  cbn [map psums tl concat].
+  destruct (psums_head (lenN p + lenN x) (map lenN d)) as (t & Et).
+  rewrite Et. cbn [combine map_opt]. rewrite slice_mid.
+  specialize (IH (p ++ x)). rewrite lenN_app, Et, <- app_assoc in IH. cbn [tl] in IH.
+  now rewrite IH.
+Qed.
+
+Lemma b16_mod b v : b < 16 -> (b + 16 * v) mod 16 = b.
+Proof. intros H. rewrite (N.mul_comm 16 v), N.mod_add by discriminate. now apply N.mod_small. Qed.
+Lemma b16_div b v : b < 16 -> (b + 16 * v) / 16 = v.
+Proof.
+  intros H. rewrite (N.mul_comm 16 v), N.div_add by discriminate.
+  rewrite (N.div_small b 16) by exact H. lia.
+Qed.
+
+Lemma decode_encode_metadata (d : dict) : lenN d < 2 ^ 32 -> lenN (concat d) < 2 ^ 32 ->
+  decode_metadata (encode_metadata d) = Some (d, sortedb d).
+Proof.
+  intros Hn Ht. unfold encode_metadata.
+  remember (offset_size_code (N.max (lenN (concat d)) (lenN d))) as osc eqn:Eosc.
+  assert (Hosc : osc < 4) by (subst osc; apply offset_size_code_lt4).
+  assert (Hmax : N.max (lenN (concat d)) (lenN d) < 2 ^ 32) by lia.
+  set (s := if sortedb d then 1 else 0).
+  assert (Hs : s < 2) by (unfold s; destruct (sortedb d); lia).
+  replace (1 + 16 * s + 64 * osc) with (1 + 16 * (s + 4 * osc)) by lia.
+  unfold decode_metadata.
+  rewrite b16_mod by lia. cbn [N.eqb negb].
+  change 64 with (16 * 4). rewrite <- N.div_div by discriminate.
+  rewrite b16_div by lia.
+  assert (E2 : (s + 4 * osc) mod 2 = s).
+  { replace (4 * osc) with (2 * osc * 2) by lia. rewrite N.mod_add by discriminate. now apply N.mod_small. }
+  rewrite E2, hdr_div by lia. rewrite (N.mod_small osc 4) by exact Hosc.
+  rewrite read_uint_to_le by (subst osc; apply offset_size_code_bound; [exact Hmax|lia]).
+  match goal with |- context [if ?c then None else _] => assert (Hc : c = false) end.
+  { apply N.ltb_ge. rewrite lenN_app, lenN_write_uints, lenN_psums, lenN_map.
+    pose proof (osz_ge1 osc). unfold bytes in *. nia. }
+  rewrite Hc.
+  replace (S (N.to_nat (lenN d))) with (length (psums 0 (map lenN d)))
+    by (rewrite psums_length, map_length, to_nat_lenN; reflexivity).
+  rewrite read_uints_write.
+  2:{ eapply Forall_impl; [|apply psums_bound]. cbn. intros a Ha. rewrite sum_lens in Ha.
+      subst osc. apply offset_size_code_bound; [exact Hmax|lia]. }
+  pose proof (slices_ok d []) as Hsl. cbn [app] in Hsl. change (lenN (@nil N)) with 0 in Hsl.
+  rewrite Hsl. f_equal. f_equal. unfold s. now destruct (sortedb d).
+Qed.
+
+(** * the theorem *)
+Theorem decode_encode v meta val :
+  wf v -> encodable v -> encode v = (meta, val) -> decode meta val = Some (canon v).
+Proof.
+  unfold encodable, encode. destruct (enc_st [] v) as [d b] eqn:E.
+  intros Hw (Hb & Hn & Ht) Hm. inversion Hm; subst.
+  unfold decode. rewrite decode_encode_metadata by assumption.
+  destruct (enc_st_good v Hw [] d b (NoDup_nil _) E Hb Hn) as (_ & _ & _ & Hok).
+  unfold decode_value. rewrite <- (app_nil_r b) at 2. apply Hok; [apply ext_refl|lia].
+Qed.
+
+(* a value whose objects list their fields in name order is returned unchanged *)
+Lemma sortedb_ksorted {A} (l : list (bytes * A)) : sortedb (map fst l) = true -> ksorted l.
+Proof.
+  induction l as [|a l IH]; [exact (fun _ => I)|]. destruct l as [|b l]; [exact (fun _ => I)|].
+  cbn [map sortedb]. intros H. apply andb_true_iff in H as [H1 H2]. split; [exact H1|]. apply IH. exact H2.
+Qed.
+
+Lemma key_sorted_array l : key_sorted (VArray l) <-> Forall key_sorted l.
+Proof.
+  cbn [key_sorted]. induction l as [|x l IH]; [split; [constructor|exact (fun _ => I)]|].
+  rewrite IH. split; [intros [H1 H2]; now constructor|intros H; inversion H; auto].
+Qed.
+
+Lemma key_sorted_object fs : key_sorted (VObject fs) <->
+  sortedb (map fst fs) = true /\ Forall (fun kv => key_sorted (snd kv)) fs.
+Proof.
+  cbn [key_sorted]. apply and_iff_compat_l.
+  induction fs as [|[k x] fs IH]; [split; [constructor|exact (fun _ => I)]|].
+  rewrite IH. split; [intros [H1 H2]; now constructor|intros H; inversion H; auto].
+Qed.
+
+Lemma canon_key_sorted v : key_sorted v -> canon v = v.
+Proof.
+  induction v using value_ind'; intros Hk; try reflexivity.
+  - apply key_sorted_array in Hk. rewrite canon_array. f_equal.
+    induction l as [|x l IHl]; [reflexivity|]. inversion H; inversion Hk; subst. cbn. f_equal; auto.
+  - apply key_sorted_object in Hk as [Hs Hk]. rewrite canon_object.
+    assert (Ec : cmap fs = fs).
+    { clear Hs. induction fs as [|[k x] fs IHf]; [reflexivity|].
+      inversion H; inversion Hk; subst. cbn in *. f_equal; [f_equal; auto|auto]. }
+    rewrite Ec. f_equal. apply isort_id. now apply sortedb_ksorted.
+Qed.
+
+Corollary decode_encode_sorted v meta val :
+  wf v -> key_sorted v -> encodable v -> encode v = (meta, val) -> decode meta val = Some v.
+Proof. intros Hw Hk He E. rewrite <- (canon_key_sorted v Hk) at 2. now apply decode_encode. Qed.
